@@ -3,7 +3,9 @@
 (* inputs; out-of-range coordinates / indices are rejected without a panic.   *)
 (* Observation: one record per library call                                   *)
 (*   [api, outcome ("returned" | "panic" | "budget"), msg, loc, allocs, steps, *)
-(*    rej (-1 not applicable, 1 rejected without effect, 0 accepted)]          *)
+(*    rej (-1 not applicable, 1 rejected without effect, 0 accepted),          *)
+(*    stack (bytes of stack the call used, -1 = not measured: only the "deep"  *)
+(*    run - dev profile, inputs with 12 000 vertices / characters - measures)] *)
 (* of a case with the flat lists `coords`, `sizes` and the stroke width `w`.   *)
 EXTENDS Integers, Sequences, FiniteSets
 
@@ -13,9 +15,13 @@ DisplayScale(o) ==
   /\ \A j \in 1..Len(o.sizes) : o.sizes[j] >= 0 /\ o.sizes[j] <= 1024
   /\ o.w >= 0 /\ o.w <= 128
 
+StackBudget == 262144
 CallFails(c) ==
        (IF c.outcome # "panic" THEN {} ELSE {"panicked"})
   \cup (IF c.outcome # "budget" THEN {} ELSE {"did_not_terminate_within_step_budget"})
   \cup (IF c.allocs = 0 THEN {} ELSE {"heap_allocation"})
   \cup (IF c.rej # 0 THEN {} ELSE {"out_of_range_input_not_rejected"})
+  \* a call that needs stack in proportion to the LENGTH of its input (recursion per vertex / line / character)
+  \* does not terminate on a finite stack: 256 KB is far above anything a call needs for a fixed-size frame chain
+  \cup (IF c.stack <= StackBudget THEN {} ELSE {"stack_use_grows_with_input_length"})
 =============================================================================
